@@ -527,15 +527,48 @@ impl FaultSet {
     }
 }
 
-fn classify(bytes: &[u8]) -> String {
-    match catch(|| engine_from_bytes(bytes).map(|_| ())) {
-        Ok(Ok(())) => "ok".into(),
-        Ok(Err(_)) => "err".into(),
-        Err(p) => {
+/// The same bytes under a file name that is not valid UTF-8 (legal on Linux: a Latin-1 "voix-é"): "ok", "err" or "panic …".
+fn classify_named(bytes: &[u8]) -> String {
+    use std::os::unix::ffi::OsStrExt;
+    static N: std::sync::atomic::AtomicU64 = std::sync::atomic::AtomicU64::new(0);
+    let base = tmp_path("c18-name");
+    let mut name = base.into_bytes();
+    name.extend(format!("-voix-{}-", N.fetch_add(1, std::sync::atomic::Ordering::Relaxed)).as_bytes());
+    name.extend(b"\xe9\xff.htsvoice");
+    let path = std::path::PathBuf::from(std::ffi::OsStr::from_bytes(&name));
+    if std::fs::write(&path, bytes).is_err() {
+        return "skip".into();
+    }
+    let r = catch(|| jbonsai::Engine::load(&[&path]).map(|_| ()));
+    let r2 = catch(|| jbonsai::model::load_htsvoice_file(&path).map(|_| ()));
+    let _ = std::fs::remove_file(&path);
+    match (r, r2) {
+        (Ok(Ok(())), Ok(Ok(()))) => "ok".into(),
+        (Ok(_), Ok(_)) => "err".into(),
+        (Err(p), _) | (_, Err(p)) => {
             let msg: String = p.split(" @ ").next().unwrap_or("").split_whitespace().filter(|w| !w.chars().any(|c| c.is_ascii_digit())).take(4).collect::<Vec<_>>().join("-");
             format!("panic {}:{}", site_of(&p), msg)
         }
     }
+}
+
+fn classify(bytes: &[u8]) -> String {
+    let plain = match catch(|| engine_from_bytes(bytes).map(|_| ())) {
+        Ok(Ok(())) => "ok".to_string(),
+        Ok(Err(_)) => "err".to_string(),
+        Err(p) => {
+            let msg: String = p.split(" @ ").next().unwrap_or("").split_whitespace().filter(|w| !w.chars().any(|c| c.is_ascii_digit())).take(4).collect::<Vec<_>>().join("-");
+            format!("panic {}:{}", site_of(&p), msg)
+        }
+    };
+    // every eighth case is also loaded from a path whose name is not valid UTF-8: same verdict, and certainly no panic of its own
+    if fnv(bytes) % 8 == 0 {
+        let named = classify_named(bytes);
+        if named.starts_with("panic") && named != plain {
+            return format!("{} (only when the file name is not valid UTF-8)", named);
+        }
+    }
+    plain
 }
 
 /// child: `jbv child c18 <base index> <tier> <start> <end>`
@@ -568,8 +601,9 @@ pub fn child(args: &[String]) -> i32 {
 
 pub fn run(tier: Tier) -> i32 {
     let rep = Report::new("C18", tier, "fault_enumeration");
-    rep.set_rule("fault enumeration on 6 generated voice files (about 2-4 kB: 2/3 streams, GV on/off, single-leaf and 3-leaf trees, quoted/unquoted leaves) and the bundled voice: singles = truncation (every byte offset on generated files; every section/range boundary +-1 and a 64-point lattice on V0), every header number replaced by each of 17 values (incl. non-ASCII Unicode digits), every header line deleted/duplicated/emptied, every header key reshaped in 12 ways (brackets swapped, doubled, missing, out of order, empty) and unknown lines with such keys added, every range inverted, every pair of ranges swapped, tree/question/window tokens renamed or removed (every occurrence on generated files), every number inside window rows (and, on generated files, inside tree text) replaced by each of {0, 4e18, 1e12, a 20-digit number, -1} with the ranges rewritten to match, every tree's brace block emptied or cut down to its first node line, the duration tree replaced by a ladder of 40 diamonds (a DAG with 2^40 paths), runs of 3000 and 2000000 empty lines inside each header section, 200000 GV-off patterns, 26 question patterns with numeric fields at the ends of their ranges (255, 127, -128, 25?, 99?, ...) as GV-off pattern and as first tree question, every text byte of generated files replaced by each of 9 bytes, NUL/0xFF/partial-UTF-8 bytes in every header section, PDF count words overwritten; doubles (thorough; first generated file in quick) = all pairs of reduced header faults on different lines, reduced header fault x truncation (stride 7), reduced header fault x token fault; each case loaded via the real loader + VoiceSet + Condition::load_model in a child process (RLIMIT_AS 3 GiB, 90 s per case); distinct = distinct fault; non-trivial = faulted bytes differ from the base");
+    rep.set_rule("fault enumeration on 6 generated voice files (about 2-4 kB: 2/3 streams, GV on/off, single-leaf and 3-leaf trees, quoted/unquoted leaves) and the bundled voice: singles = truncation (every byte offset on generated files; every section/range boundary +-1 and a 64-point lattice on V0), every header number replaced by each of 17 values (incl. non-ASCII Unicode digits), every header line deleted/duplicated/emptied, every header key reshaped in 12 ways (brackets swapped, doubled, missing, out of order, empty) and unknown lines with such keys added, every range inverted, every pair of ranges swapped, tree/question/window tokens renamed or removed (every occurrence on generated files), every number inside window rows (and, on generated files, inside tree text) replaced by each of {0, 4e18, 1e12, a 20-digit number, -1} with the ranges rewritten to match, every tree's brace block emptied or cut down to its first node line, the duration tree replaced by a ladder of 40 diamonds (a DAG with 2^40 paths), runs of 3000 and 2000000 empty lines inside each header section, 200000 GV-off patterns, 26 question patterns with numeric fields at the ends of their ranges (255, 127, -128, 25?, 99?, ...) as GV-off pattern and as first tree question, every text byte of generated files replaced by each of 9 bytes, NUL/0xFF/partial-UTF-8 bytes in every header section, PDF count words overwritten; doubles (thorough; first generated file in quick) = all pairs of reduced header faults on different lines, reduced header fault x truncation (stride 7), reduced header fault x token fault; each case loaded via the real loader + VoiceSet + Condition::load_model in a child process (every eighth case also from a path whose file name is not valid UTF-8) (RLIMIT_AS 3 GiB, 90 s per case); distinct = distinct fault; non-trivial = faulted bytes differ from the base");
     rep.assume("at most two simultaneous faults; V0's binary PDF payload is only truncated and overwritten at its count words");
+    unwritable_stderr_part(&rep, &["loader-error", "unknown-option"]);
     let b = bases();
     let outcomes: Mutex<BTreeMap<String, (u64, String)>> = Mutex::new(BTreeMap::new());
     let exe = std::env::current_exe().expect("current exe");
